@@ -592,6 +592,164 @@ theorem create_CellInv (t : Refine.Gen.CellTables.CellType) (h : 2 ≤ t.nodePer
       exact h2 (by simpa [create, c2nAt, row] using this)
     rw [hf, hnv]; simp
 
+
+/-! ### `ref_cell_add` -/
+
+/-- the state after a successful `ref_cell_add` on a store `t` whose free list is not empty -/
+def addResult (t : CellStore) (nodes : List Int) : CellStore :=
+  { t with blank := t.c2nAt 1 t.blank.toNat, c2n := t.c2n.set t.blank.toNat nodes,
+           adj := (adjAddAll t.adj (nodes.take t.nodePer) t.blank).2, n := t.n + 1 }
+
+theorem add_eq {s t : CellStore} {nodes : List Int} (hg : s.grow = some t)
+    (hnn : ∀ v ∈ nodes.take t.nodePer, 0 ≤ v) :
+    s.add nodes = (.ok, t.blank, addResult t nodes) := by
+  have hok := (adjAddAll_spec (nodes.take t.nodePer) t.adj t.blank hnn).1
+  simp only [add, hg, hok, if_true, addResult]
+
+theorem add_none {s : CellStore} {nodes : List Int} (hg : s.grow = none) :
+    s.add nodes = (.failure, -1, s) := by
+  simp only [add, hg]
+
+theorem add_of_grow_CellInv {s t : CellStore} {nodes : List Int} (hg : s.grow = some t) (ht : CellInv t)
+    (hb : t.blank ≠ -1) (hlen : nodes.length = t.sizePer) (hnn : ∀ v ∈ nodes.take t.nodePer, 0 ≤ v) :
+    (s.add nodes).1 = .ok ∧ CellInv (s.add nodes).2.2 ∧ (s.add nodes).2.1 = t.blank ∧
+      t.validCell t.blank = false ∧ 0 ≤ t.blank ∧
+      (s.add nodes).2.2.c2n = t.c2n.set t.blank.toNat nodes ∧ (s.add nodes).2.2.nodePer = t.nodePer := by
+  rw [add_eq hg hnn]
+  obtain ⟨h1, h2, _, h4⟩ := pop_CellInv (u := addResult t nodes)
+    ht hb hlen hnn rfl rfl rfl rfl rfl (adjAddAll_spec (nodes.take t.nodePer) t.adj t.blank hnn).2
+  exact ⟨rfl, h1, rfl, h4, h2, rfl, rfl⟩
+
+/-- `ref_cell_add` with `size_per` entries whose nodes are non-negative keeps the invariant; it succeeds
+    unless the store is at the `REF_INT_MAX/4` growth limit (then `REF_FAILURE`, state unchanged) -/
+theorem add_CellInv {s : CellStore} (h : CellInv s) {nodes : List Int} (hlen : nodes.length = s.sizePer)
+    (hnn : ∀ v ∈ nodes.take s.nodePer, 0 ≤ v) :
+    CellInv (s.add nodes).2.2 ∧ (s.max < MAX_LIMIT → (s.add nodes).1 = .ok) := by
+  rcases grow_cases s with ⟨hb, hg⟩ | ⟨hb, hm, hg⟩ | ⟨hb, hm, chunk, hchunk, hg⟩
+  · obtain ⟨h1, h2, _⟩ := add_of_grow_CellInv hg h hb hlen hnn
+    exact ⟨h2, fun _ => h1⟩
+  · rw [add_none hg]
+    exact ⟨h, fun hlt => by omega⟩
+  · obtain ⟨ht, _, _⟩ := grown_facts h hb hchunk
+    have hbt : (grown s chunk).blank ≠ -1 := by simp only [grown]; omega
+    obtain ⟨h1, h2, _⟩ := add_of_grow_CellInv (t := grown s chunk) hg ht hbt hlen hnn
+    exact ⟨h2, fun _ => h1⟩
+
+/-! ### `ref_cell_remove` -/
+
+theorem getD_set_set_0 {r : List Int} {b : Int} (h : 2 ≤ r.length) :
+    ((r.set 0 (-1)).set 1 b).getD 0 (-1) = -1 ∧ ((r.set 0 (-1)).set 1 b).getD 1 (-1) = b := by
+  match r, h with
+  | a :: c :: rest, _ => simp
+
+/-- put a valid cell's row on the free list, given an adjacency that unregisters it -/
+theorem push_CellInv {t u : CellStore} (h : CellInv t) {cell : Int} (hv : t.validCell cell = true)
+    (hnp : u.nodePer = t.nodePer) (hsp : u.sizePer = t.sizePer)
+    (hc2n : u.c2n = t.c2n.set cell.toNat (((t.row cell.toNat).set 0 (-1)).set 1 t.blank))
+    (hbl : u.blank = cell) (hn : u.n = t.n - 1)
+    (hadj : ∀ w x, (u.adj.first w).count x =
+      (t.adj.first w).count x - (if x = cell then (t.cellNodes cell).count w else 0)) :
+    CellInv u := by
+  obtain ⟨hper, hrows, ⟨l, hc, hnd, hmem⟩, hcount, hnonneg, hadj0⟩ := h
+  obtain ⟨h0, hlt, hlive⟩ := validCell_iff.1 hv
+  have hi : cell.toNat < t.c2n.length := hlt
+  have hcl : cell.toNat ∉ l := fun hm => hlive ((hmem _ hlt).1 hm)
+  have hrowlen : (t.row cell.toNat).length = t.sizePer := by
+    simp only [row, getD_rows_eq_getElem hi]
+    exact hrows _ (List.getElem_mem hi)
+  obtain ⟨hg0, hg1⟩ := getD_set_set_0 (r := t.row cell.toNat) (b := t.blank) (by omega)
+  have hinvalid' : u.validCell cell = false := by
+    rw [Bool.eq_false_iff]
+    intro hv'
+    obtain ⟨_, _, h3⟩ := validCell_iff.1 hv'
+    simp only [c2nAt, row, hc2n, getD_rows_set_self hi] at h3
+    exact h3 hg0
+  refine ⟨by rw [hnp, hsp]; exact hper, ?_, ⟨cell.toNat :: l, ?_, List.nodup_cons.2 ⟨hcl, hnd⟩, ?_⟩, ?_, ?_, ?_⟩
+  · intro r hr
+    rw [hc2n] at hr
+    rw [hsp]
+    rcases List.mem_or_eq_of_mem_set hr with hr | hr
+    · exact hrows r hr
+    · rw [hr]; simp only [List.length_set]; exact hrowlen
+  · rw [hc2n, hbl]
+    have hcast : cell = ((cell.toNat : Nat) : Int) := by omega
+    rw [hcast]
+    simp only [Int.toNat_natCast]
+    refine .cons (by simpa using hi) (by rw [getD_rows_set_self hi]; exact hg0) ?_
+    rw [getD_rows_set_self hi, hg1]
+    exact hc.set_of_not_mem hcl
+  · intro j hj
+    simp only [CellStore.max, hc2n, List.length_set] at hj
+    simp only [c2nAt, row, hc2n]
+    by_cases hji : j = cell.toNat
+    · subst hji
+      rw [getD_rows_set_self hi]
+      exact ⟨fun _ => hg0, fun _ => List.mem_cons_self⟩
+    · rw [getD_rows_set_ne hji]
+      have := hmem j hj
+      simp only [c2nAt, row] at this
+      simp only [List.mem_cons, hji, false_or]
+      exact this
+  · rw [hn, hc2n, List.countP_set hi, hcount]
+    have h1 : liveRow t.c2n[cell.toNat] = true := by
+      rw [liveRow_iff, ← getD_rows_eq_getElem hi]; exact hlive
+    have h2 : liveRow (((t.row cell.toNat).set 0 (-1)).set 1 t.blank) = false := liveRow_false_iff.2 hg0
+    have h3 : 0 < t.c2n.countP liveRow := List.countP_pos_iff.2 ⟨_, List.getElem_mem hi, h1⟩
+    simp only [h1, h2, if_true, Bool.false_eq_true, if_false]
+    omega
+  · intro c hvc v hvm
+    have hci : c.toNat ≠ cell.toNat := by
+      intro e
+      have : c = cell := by
+        obtain ⟨hc0, _, _⟩ := validCell_iff.1 hvc
+        omega
+      rw [this, hinvalid'] at hvc
+      exact absurd hvc (by simp)
+    rw [validCell_set_ne hc2n (Or.inl hci)] at hvc
+    rw [cellNodes_set_ne hc2n hnp hci] at hvm
+    exact hnonneg c hvc v hvm
+  · intro v c
+    rw [hadj v c, hadj0 v c]
+    by_cases hcb : c = cell
+    · subst hcb
+      simp only [hv, hinvalid', if_true, Bool.false_eq_true, if_false, Nat.sub_self]
+    · have hci : c.toNat ≠ cell.toNat ∨ c < 0 := by omega
+      rw [validCell_set_ne hc2n hci]
+      simp only [hcb, if_false, Nat.sub_zero]
+      split
+      · rename_i hvc
+        have hci' : c.toNat ≠ cell.toNat := by
+          obtain ⟨hc0, _, _⟩ := validCell_iff.1 hvc
+          omega
+        rw [cellNodes_set_ne hc2n hnp hci']
+      · rfl
+
+theorem remove_eq {s : CellStore} (h : CellInv s) {cell : Int} (hv : s.validCell cell = true) :
+    s.remove cell = (.ok,
+      { s with n := s.n - 1, adj := (adjRemoveAll s.adj (s.cellNodes cell) cell).2,
+               c2n := s.c2n.set cell.toNat (((s.row cell.toNat).set 0 (-1)).set 1 s.blank),
+               blank := cell }) := by
+  have hpre : ∀ w, (s.cellNodes cell).count w ≤ (s.adj.first w).count cell := by
+    intro w; rw [h.adj w cell, hv]; simp
+  have hok := (adjRemoveAll_spec (s.cellNodes cell) s.adj cell hpre).1
+  simp only [remove, hv, Bool.not_true, Bool.false_eq_true, if_false]
+  simp only [cellNodes, row] at hok
+  simp only [row, hok, ne_eq, not_true_eq_false, if_false]
+  rfl
+
+theorem remove_invalid {s : CellStore} {cell : Int} (hv : s.validCell cell = false) :
+    s.remove cell = (.invalid, s) := by
+  simp [remove, hv]
+
+/-- `ref_cell_remove` of a valid cell succeeds and keeps the invariant -/
+theorem remove_CellInv {s : CellStore} (h : CellInv s) {cell : Int} (hv : s.validCell cell = true) :
+    (s.remove cell).1 = .ok ∧ CellInv (s.remove cell).2 := by
+  rw [remove_eq h hv]
+  refine ⟨rfl, ?_⟩
+  have hpre : ∀ w, (s.cellNodes cell).count w ≤ (s.adj.first w).count cell := by
+    intro w; rw [h.adj w cell, hv]; simp
+  exact push_CellInv h hv rfl rfl rfl rfl rfl (adjRemoveAll_spec (s.cellNodes cell) s.adj cell hpre).2
+
 end CellStore
 
 end Refine.Model.CellStore
